@@ -581,3 +581,52 @@ def prog():
         return {"V.iterations": [int(i) for i in self._is] == want,
                 "V.acc": Eq(c.v(r.acc), c.v(acc0) + sum(want)), "V.inv": c.inv(r.acc),
                 "F.stack_empty": len(r.stack) == 0, "F.guard_state_restored": self.state_clean(c)}
+
+
+@register
+class SchemaElifConditionChangesState(_Schema):
+    """_if(c1) .. _elif(cond2) .. _endif() where evaluating the elif condition -- which happens BETWEEN the two regions --
+    itself changes the guard state (the program switches the run-time checks off there).  Each region is left to the
+    state it was entered from: after _endif the switch is still off."""
+    name = "pysnark.branching:_if#elif_condition_changes_state"
+    vprops = ("C09", "C08")
+    fprops = ("C09", "C08")
+    cprops = tprops = ()
+    skip_facets = "CTN"
+
+    def configs(self, tier):
+        return [dict(cond="secret_lc", bits=3)]
+
+    def setup(self, c, cfg):
+        apply_mode(c, "plain", bitlength=cfg["bits"])
+        br = self.br(c)
+        rt = c.rt
+        c1, c2 = _cond(c, cfg["cond"], "c1"), _cond(c, cfg["cond"], "c2")
+        self._between = []
+
+        def cond2():
+            rt.ignore_errors(True)
+            self._between.append((rt.guard, rt.ignore_errors(), rt.LinComb.ONE))
+            return c2
+        return c.client("""
+def prog():
+    _ = BranchingValues()
+    if _if(c1):
+        pass
+    if _elif(cond2):
+        pass
+    _endif()
+    return _
+""", c1=c1, cond2=cond2, **API(br)), (), {}
+
+    def pre(self, c):
+        return [(1 << (c.bitlength + 1)) < c.p]
+
+    def post(self, c, r, *a_):
+        now = c.now
+        ok = len(self._between) == 1
+        d = {"V.condition_evaluated_once": ok, "F.stack_empty": len(r.stack) == 0}
+        if ok:
+            g, ie_, one = self._between[0]
+            d["F.state_after_statement_is_state_before_the_elif_region"] = And(now["guard"] is g, now["ONE"] is one, formula(now["ie"]) == formula(ie_))
+        return d
